@@ -824,6 +824,9 @@ func (g *gen) annotate(f, typed *descriptorpb.FieldDescriptorProto, repeated boo
 		if g.chance(40) {
 			k.ForeignKey = &schema_j5pb.EntityRef{Package: "gen.a.v1", Entity: "foo"}
 		}
+		if g.chance(25) {
+			k.TenantType = proto.String("org")
+		}
 		proto.SetExtension(ensureOpts(f), ext_j5pb.E_Key, k)
 		g.tag("psm-key")
 	}
